@@ -95,10 +95,13 @@ def rth_entry(rng):
         return f32(rng.choice([0, 100, -2500.5, 32767, 65535, 100000.5, 127 * 32767 + 200.0, 1e9]) if rng.random() < 0.5 else rng.uniform(-20000, 20000))
     neck = f32(rng.choice([0, 0, 500, -300])) if action == 3 else 0.0
     neckd = f32(rng.choice([0, 0, 2, 70])) if action == 3 else 0.0
-    time = rng.choice([0.0, 5.0, 100.0, -3.0, 65.0])
+    # (entry times and pre-delays whose sum does not fit 32-bit milliseconds, or is not a number: the conversion fails
+    # at its very first step, before or after whatever it has allocated by then)
+    time = rng.choice([0.0, 5.0, 100.0, -3.0, 65.0, 5e6, 4294967.5, 4294000.0, float("nan"), float("inf")])
+    pre = rng.choice([0.0, 2.0, 70.0, -1.0, 1000.0, 16777216.0, float("inf")])
     return "%s:%d:%s:%s:%s:%s:%s:%s:%s:%s:%s" % (
         fhex(time), action, fhex(dur()), fhex(co()), fhex(co()), fhex(co() if action == 3 else 0.0),
-        fhex(rng.choice([0.0, 2.0, 70.0, -1.0])), fhex(rng.choice([0.0, 3.0, 65.0, -2.0])), fhex(neck), fhex(neckd),
+        fhex(pre), fhex(rng.choice([0.0, 3.0, 65.0, -2.0])), fhex(neck), fhex(neckd),
         fpt([co(), co(), abs(co()), f32(rng.choice([0, 90, 359.9]))]))
 
 
